@@ -1,8 +1,8 @@
 ----------------------------- MODULE Trace_Marker -----------------------------
 (* marker {rule, inst, o, olc}: o / olc = [m, loc, hf, bf] observed with the header name in the rule's
-   spelling / in lower case.
+   spelling / in lower case; oa / ob = the header sent twice, a value the pattern cannot accept after / before it.
    classes (C10): marker_match_wrong, target_substitution, header_filter_substitution,
-                  body_filter_substitution, header_marker_name_case                        *)
+                  body_filter_substitution, header_marker_name_case, header_marker_repeated                       *)
 EXTENDS Marker, Json, IOUtils
 TraceLog == ndJsonDeserialize(IOEnv.TRACE)
 VARIABLES l
@@ -16,7 +16,8 @@ Obs(o, r, inst, cls) ==
   /\ Judge(o.m => o.bf = "B" \o Substitute(r.bfv, r, inst, 1), IF cls = "" THEN "body_filter_substitution" ELSE cls)
 TraceMarker ==
   /\ IsEvent("marker")
-  /\ LET e == TraceLog[l] IN Obs(e.o, e.rule, e.inst, "") /\ Obs(e.olc, e.rule, e.inst, "header_marker_name_case")
+  /\ LET e == TraceLog[l] IN /\ Obs(e.o, e.rule, e.inst, "") /\ Obs(e.olc, e.rule, e.inst, "header_marker_name_case")
+                             /\ Obs(e.oa, e.rule, e.inst, "header_marker_repeated") /\ Obs(e.ob, e.rule, e.inst, "header_marker_repeated")
 TracePanic == IsEvent("panic") /\ Report("VERDICT", "panic")
 TraceNext == TraceMarker \/ TracePanic
 TraceSpec == l = 1 /\ [][TraceNext]_l
